@@ -19,7 +19,7 @@ def run(ctx):
     relcheck.mc(ctx, INVS, consts=dict(KINDS={"F2", "FL", "F3", "g1"} if q else {"F2", "FL", "F3", "g1", "gL", "g4"},
                                        PROCS={"EM", "NC", "CC"}, NFZM={3, 4, 5} if q else {3, 4, 5, 6},
                                        NFFF={3, 4} if q else {3, 4, 5}, FLAVS={"total"}, POSS={0},
-                                       TARGETS={"proton"} if q else {"proton", "third"}),
+                                       TARGETS={"proton", "third"}),
                 subst=dict(ORDERS="ORD_few" if q else "ORD_all"))
     insts = []
     # NLO everywhere
@@ -29,6 +29,9 @@ def run(ctx):
     insts += relcheck.emit(ctx, RELS, PROCS={"NC"}, PROJS={"e-"}, KINDS={"F2", "F3"} if q else {"F2", "FL", "F3", "g1"},
                            SCHEMES={"ZM5", "FFNS3", "FONLL03"} if q else {"ZM5", "FFNS3", "FFNS4", "FFN03", "FONLLS3", "FONLL03", "FONLL04"},
                            ORDERS={"22"} if q else {"22", "23"})
+    # a nuclear target (Z/A = 1/3): the isospin rotation acts per kernel, all heavynesses of an instance are computed in ONE run
+    insts += relcheck.emit(ctx, ["FFNSPartition", "ZMTotalIsLight", "PositivitySum"], PROCS={"NC"}, PROJS={"e-"}, KINDS={"F2", "F3"},
+                           SCHEMES={"ZM4", "FFNS3"}, ORDERS={"11"}, TARGETS={"third"})
     if not q:
         insts += relcheck.emit(ctx, RELS, PROCS={"EM", "CC"}, PROJS={"e+", "nubar"}, KINDS={"F2", "FL", "F3", "gL", "g4"},
                                SCHEMES={"ZM3", "ZM6", "FFNS5", "FFN04", "FONLLS3", "FONLL04"}, ORDERS={"11", "21"},
